@@ -3,7 +3,7 @@ GROUPS = ['common', 'acn']
 CXX_SOURCES = ['plugins/shownet/ShowNetNode.cpp', 'plugins/artnet/ArtNetNode.cpp',
                'plugins/sandnet/SandNetNode.cpp', 'plugins/espnet/EspNetNode.cpp',
                'plugins/espnet/RunLengthDecoder.cpp', 'plugins/pathport/PathportNode.cpp']
-WRAP = ['sendto', 'recvfrom']
+WRAP = ['sendto', 'recvfrom', 'clock_gettime']
 COQ_TIMEOUT = 1200
 
 
@@ -137,7 +137,7 @@ RULE = ('frames of every length 0-512 x {random, all-equal, ramp, alternating, n
         'virtual clock (>= 120 s, ArtPoll/ArtPollReply exchanged at intervals below and above the 31 s age-out, unicast '
         'and always-broadcast senders); long-lived sender AND receiver node objects per protocol with scripts over four universes, repeated / identical '
         'frames and public setters between sends (names, StartStream, port re-configuration); Art-Net ports with two or '
-        'three senders, joins and silences across the 10 s merge timeout, HTP and LTP; transmit DmxBuffers carry history (an earlier, longer frame left in the '
+        'three senders, joins and silences across the 10 s merge timeout, HTP and LTP; E1.31 receivers with two or three sender CIDs on a virtual clock (vanishing without terminate and expiring, take-over at lower / higher priority, a sender idling at blackout, terminate and restart); transmit DmxBuffers carry history (an earlier, longer frame left in the '
         '512-byte block; explicit dirty-block cases for Encode and ShowNet with short frames); Art-Net sender and receiver '
         'as separate nodes with 0/1/4 input ports and the address setters called in every order before/after Start(); '
         'non-trivial = complete encode / whole decode / datagram handled; '
@@ -148,6 +148,9 @@ ASSUMPTIONS = ['frames have at most 512 slots (DmxBuffer invariant)',
                'encoded input to Decode shorter than 2^24 bytes (destination_index is an int in the C++)',
                'receivers have one registered handler / output port and no other source tracked yet '
                '(source arbitration and merging are C08)',
+               'time for DMPE131Inflator (its own ola::Clock) is advanced through an interposed clock_gettime (real monotonic '
+               'clock plus an offset); the 2.5 s expiry interval is typed in the model (defined in a .cpp file) and pinned by '
+               'cases with gaps of 2.4 s and 2.7 s',
                'operator new does not fail']
 TRUSTED = ['modelled rather than verified: RunLengthEncoder::Encode/Decode, DmxBuffer::Set/SetRange/SetRangeToValue/'
            'Get(channel), ShowNetNode::BuildCompressedPacket/HandlePacket/HandleCompressedPacket (size check as '
@@ -182,7 +185,7 @@ LEVEL_TEXT = ('Coq theorems, for all frames of 1-512 slots and all addresses, ab
               'c07_artnet_remaining_sender (two merge slots, LTP/HTP: once the other sender is silent beyond the 10 s merge '
               'timeout the remaining sender\'s frame is reproduced exactly), c07_e131_sender_script (SetSourceName / '
               'StartStream between sends never disturb a stream), c07_shownet_sender_history (one sender, any universes, '
-              'identical frames, renames); c07_e131_multi_universe: for any interleaving of sends over any universes by one sender each handler sees '
+              'identical frames, renames); c07_e131_remaining_sender (several sender CIDs: once every other sender has expired the live sender\'s frame is reproduced exactly, whatever priority the vanished senders left behind); c07_e131_multi_universe: for any interleaving of sends over any universes by one sender each handler sees '
               'exactly the frames of its own universe (rev 3 proved; rev 2 multi-universe correspondence-tested); plus RunLengthEncoder lossless / bounded / false-iff-truncated / count bytes in 1..127 for all '
               'frames and capacities.  The models are tied to the C++ (real node objects, ASan/UBSan, datagram bytes '
               'compared) by a differential correspondence check; receivers are modelled with one handler and no '
@@ -493,6 +496,30 @@ def gen_cases(rng, tier):
                 else:
                     toks.append('%s%d' % (rng.choice('aabbc'), rng.randrange(npool)))
             yield 'anm %d %s %s' % (ltp, '/'.join(hx(f) for f in pool), ','.join(toks))
+    # ---- E1.31 receiver with two or three sender CIDs over (virtual) time: a sender vanishes without terminate
+    #      and expires, another takes over at a lower / higher / equal priority; a sender idles at blackout while
+    #      another one sends; terminate + restart.  Waits are multiples of 300 ms (never exactly the 2.5 s expiry).
+    zero4, hi, lo = hx([0, 0, 0, 0]), hx([200, 200, 200, 200]), hx([10, 20, 30, 40])
+    for rev2 in (0, 1):
+        yield 'e1c %d %s %s' % (rev2, hi + '/' + lo, 'pa150,a0,w300,a0,w2700,pb100,b1,w300,b1,w300,b1')
+        yield 'e1c %d %s %s' % (rev2, hi + '/' + lo + '/' + zero4, 'b2,w300,a0,w300,b2,w300,a1,w300,b2,a1,w300,a0')
+        yield 'e1c %d %s %s' % (rev2, hi + '/' + lo, 'a0,w2400,pb50,b1,w300,b1,w2400,b1,w300,b1')
+        yield 'e1c %d %s %s' % (rev2, hi + '/' + lo, 'pa200,a0,ta,pb1,b1,w300,b1,a0,w300,b1')
+        for _ in range(10 if quick else 200):
+            pool = [hx([rng.randrange(256) for _ in range(rng.choice([1, 4, 24, 512]))]) for _ in range(2)] + \
+                   [hx([0] * rng.choice([1, 4, 24]))]
+            toks = []
+            for i in range(rng.choice([8, 16, 30])):
+                r = rng.random()
+                if r < 0.3:
+                    toks.append('w%d' % rng.choice([300, 300, 600, 2400, 2700, 3300]))
+                elif r < 0.4:
+                    toks.append('p%s%d' % (rng.choice('abc'), rng.choice([0, 50, 100, 100, 150, 200])))
+                elif r < 0.47:
+                    toks.append('t%s' % rng.choice('ab'))
+                else:
+                    toks.append('%s%d' % (rng.choice('aabbc'), rng.randrange(3)))
+            yield 'e1c %d %s %s' % (rev2, '/'.join(pool), ','.join(toks))
     if not quick:
         # all addresses of the small address spaces
         f = [1, 2, 3, 3, 3, 9]
@@ -527,6 +554,6 @@ def nontrivial(payload, md):
         return md.get('ret') == '1' and md.get('size') not in (None, '0')
     if op == 'dec':
         return md.get('dret') == '1' and md.get('dbuf') not in (None, 'none')
-    if op in ('e1s', 'e1m', 'an3', 'anu', 'e1p', 'sac', 'hist', 'anm'):
+    if op in ('e1s', 'e1m', 'an3', 'anu', 'e1p', 'sac', 'hist', 'anm', 'e1c'):
         return md.get('spec') == '1'
     return md.get('handled') == '1'
